@@ -137,10 +137,20 @@ func (E *Engine) entryState(c *fnCtx, suffix string) *State {
 	for _, fv := range fn.FreeVars {
 		v := E.freshVal(fv.Type(), "fv:"+fv.Name()+suffix, &facts)
 		facts = append(facts, E.allocFacts(st, v)...)
+		if pt, isPtr := types.Unalias(fv.Type()).Underlying().(*types.Pointer); isPtr && v.F == nil {
+			// a captured variable: a live cell of its own family
+			facts = append(facts, not(eq(v.S, "0")))
+			if _, isStruct := types.Unalias(pt.Elem()).Underlying().(*types.Struct); !isStruct {
+				v.LV = &LVal{Kind: lvHeap, Ref: v.S, Root: pt.Elem(), VarCell: true}
+			}
+		}
 		st.regs[fv] = v
 		c.freeVars[fv] = v
-		st.env[fv.Name()] = v
-		c.params[fv.Name()] = v
+		nv := *v
+		if _, isPtr := types.Unalias(fv.Type()).Underlying().(*types.Pointer); isPtr {
+			nv.AutoDeref = true
+		}
+		c.params[fv.Name()] = &nv
 	}
 	st.assume(facts...)
 	c.entryHeap = st.heap // alias: lazily created H0 constants are shared
